@@ -48,6 +48,7 @@ def judge (stream : String) (kv : KV) : Option Verdict :=
   | "vi19" => some (ViSpec.judge 19 kv)
   | "vi16" => some (ViSpec.judge 16 kv)
   | "vi04" => some (ViSpec.judge 4 kv)
+  | "vi20" => some (ViSpec.judge 20 kv)
   | "vi09" => some (ViSpec.judge09 kv)
   | "vi08" => some (ViSpec08.judge kv)
   | "lops04" => some (LbufD.judgeLops 4 kv)
